@@ -51,6 +51,9 @@ class CGenerator:
         return n.name
 
     def visit_Pragma(self, n: c_ast.Pragma) -> str:
+        if isinstance(n.string, c_ast.Constant):
+            # The _Pragma("...") operator keeps its string literal as a node.
+            return "_Pragma(" + self.visit(n.string) + ")"
         ret = "#pragma"
         if n.string:
             ret += " " + n.string
